@@ -6,6 +6,10 @@ ROOT = os.path.dirname(os.path.dirname(os.path.abspath(__file__)))
 
 # id -> (level category, level text, level note, technique, design ref)
 CHECKS = {
+ "C15": ("exploration",
+   "Race-detector build. A: 120/2e4 pairs of member states (equal, disjoint repositories, overlapping with seeded agreeing and conflicting tags, one empty) built by direct histories; every read, resolve, range read and listing over the universe goes through the unifier under both read policies and is compared with the union of the members' own answers. B: 400/1e4 write histories (all write methods, composite and fine-grained chunked uploads through the composite ID, deletes) over two recording members that start equal, a third with an injected failure in one member: every write must reach both members with equal arguments, success only if both succeeded, members observably equal after fault-free prefixes.",
+   "Trusted: the members' own direct answers as ground truth for the union; rec as the observation point. Manifest media types are not compared between members; after an injected failure divergence is allowed.",
+   "runtime monitor: union oracle over direct member reads + recording members for write replication + injected member faults + race detector", "3/C15"),
  "C07": ("exploration",
    "A scripted backend returns a generated error from one of 33 carrier sites covering all 18 methods; the same call is made 1, 2 and 3 server->client hops away (in-process transport, ~6% over real loopback) and errors.Is against the 15 standard values, HTTP status (hand-transcribed table, else own status, else 500), detail JSON and message fixed point are compared with the original. (site x code) pairs are enumerated cyclically, wrapping/status/message/detail classes are random; 6e4 chains quick, 3e6 thorough.",
    "Trusted: the hand-transcribed status table and the harness stubs. HEAD carriers are judged by status and stability only; ErrRangeInvalid is preservation-only; e0 uses by-code Is. Three recorded known findings (context wrappers defeat prefix trimming) are reported as KNOWN-FINDING.",
